@@ -13,7 +13,7 @@ open LispModel LispModel.Scan
 def IsDelim (d : Rune) : Prop := d.bad = false ∧ (d.ch = 32 ∨ d.ch = 41 ∨ d.ch = 93 ∨ d.ch = 125)
 
 inductive Sim (d : Rune) (S : List Rune) : St → St → Prop
-  | sync (ch : Int) (r : List Rune) (p1 p2 : PState) : p1.errs = p2.errs →
+  | sync (ch : Int) (r : List Rune) (p1 p2 : PState) : 0 ≤ ch → p1.errs = p2.errs →
       Sim d S (ch, r, p1) (ch, r ++ d :: S, p2)
   | done (p1 p2 : PState) : p1.errs = p2.errs → Sim d S (EOF, [], p1) ((d.ch : Int), S, p2)
 
@@ -54,7 +54,7 @@ theorem next_sim {d : Rune} (hd : IsDelim d) (S : List Rune) (r : List Rune) (p1
     obtain ⟨q1, h1, e1⟩ := next_cons_eq x xs p1
     obtain ⟨q2, h2, e2⟩ := next_cons_eq x (xs ++ d :: S) p2
     rw [List.cons_append, h1, h2]
-    exact Sim.sync _ _ _ _ (by rw [e1, e2, he])
+    exact Sim.sync _ _ _ _ (Int.natCast_nonneg _) (by rw [e1, e2, he])
 
 /-! ### what the scanner's tests say about a delimiter and about EOF -/
 
@@ -73,12 +73,12 @@ theorem identLoop_stop (r : List Rune) (ch : Int) (p : PState) (h : isIdentRune 
   cases r <;> simp [identLoop, h]
 
 theorem identLoop_sync {d : Rune} (hd : IsDelim d) (S : List Rune) :
-    ∀ (r : List Rune) (ch : Int) (p1 p2 : PState), p1.errs = p2.errs →
+    ∀ (r : List Rune) (ch : Int) (p1 p2 : PState), 0 ≤ ch → p1.errs = p2.errs →
       Sim d S (identLoop r ch p1) (identLoop (r ++ d :: S) ch p2) := by
   intro r
   induction r with
   | nil =>
-    intro ch p1 p2 he
+    intro ch p1 p2 h0 he
     by_cases hi : isIdentRune ch 1 = true
     · obtain ⟨q, h, hq⟩ := next_delim hd S p2
       have e2 : identLoop ([] ++ d :: S) ch p2 = identLoop S (d.ch : Int) q := by
@@ -89,9 +89,9 @@ theorem identLoop_sync {d : Rune} (hd : IsDelim d) (S : List Rune) :
       exact Sim.done _ _ (by rw [hq]; exact he)
     · have hi' : isIdentRune ch 1 = false := by simpa using hi
       rw [identLoop_stop _ _ _ hi', identLoop_stop _ _ _ hi']
-      exact Sim.sync _ _ _ _ he
+      exact Sim.sync _ _ _ _ h0 he
   | cons x xs ih =>
-    intro ch p1 p2 he
+    intro ch p1 p2 h0 he
     by_cases hi : isIdentRune ch 1 = true
     · obtain ⟨q1, h1, e1⟩ := next_cons_eq x xs p1
       obtain ⟨q2, h2, e2⟩ := next_cons_eq x (xs ++ d :: S) p2
@@ -100,15 +100,15 @@ theorem identLoop_sync {d : Rune} (hd : IsDelim d) (S : List Rune) :
       have a2 : identLoop (x :: xs ++ d :: S) ch p2 = identLoop (xs ++ d :: S) (x.ch : Int) q2 := by
         simp only [List.cons_append, identLoop, hi, if_true, h2]
       rw [a1, a2]
-      exact ih _ _ _ (by rw [e1, e2, he])
+      exact ih _ _ _ (Int.natCast_nonneg _) (by rw [e1, e2, he])
     · have hi' : isIdentRune ch 1 = false := by simpa using hi
       rw [identLoop_stop _ _ _ hi', identLoop_stop _ _ _ hi']
-      exact Sim.sync _ _ _ _ he
+      exact Sim.sync _ _ _ _ h0 he
 
 theorem identLoop_sim {d : Rune} (hd : IsDelim d) (S : List Rune) (s1 s2 : St) (h : Sim d S s1 s2) :
     Sim d S (identLoop s1.2.1 s1.1 s1.2.2) (identLoop s2.2.1 s2.1 s2.2.2) := by
   cases h with
-  | sync ch r p1 p2 he => exact identLoop_sync hd S r ch p1 p2 he
+  | sync ch r p1 p2 h0 he => exact identLoop_sync hd S r ch p1 p2 h0 he
   | done p1 p2 he =>
     simp only []
     rw [identLoop_stop _ _ _ (eof_not_ident 1), identLoop_stop _ _ _ (delim_not_ident hd 1)]
@@ -155,13 +155,13 @@ theorem digitsLoop_last (base : Nat) (ch : Int) (p : PState) (ds : Nat)
   simp only [h, if_true]
 
 theorem digitsLoop_sync {d : Rune} (hd : IsDelim d) (S : List Rune) (base : Nat) :
-    ∀ (r : List Rune) (ch : Int) (p1 p2 : PState) (ds : Nat) (inv : Int), p1.errs = p2.errs →
+    ∀ (r : List Rune) (ch : Int) (p1 p2 : PState) (ds : Nat) (inv : Int), 0 ≤ ch → p1.errs = p2.errs →
       Sim d S (digitsLoop base r ch p1 ds inv).1 (digitsLoop base (r ++ d :: S) ch p2 ds inv).1 ∧
       (digitsLoop base r ch p1 ds inv).2 = (digitsLoop base (r ++ d :: S) ch p2 ds inv).2 := by
   intro r
   induction r with
   | nil =>
-    intro ch p1 p2 ds inv he
+    intro ch p1 p2 ds inv h0 he
     by_cases hi : digTest base ch = true
     · obtain ⟨q, h, hq⟩ := next_delim hd S p2
       rw [List.nil_append, digitsLoop_step _ _ _ _ _ _ _ hi, digitsLoop_last _ _ _ _ _ hi, h]
@@ -170,24 +170,24 @@ theorem digitsLoop_sync {d : Rune} (hd : IsDelim d) (S : List Rune) (base : Nat)
       exact ⟨Sim.done _ _ (by rw [hq]; exact he), rfl⟩
     · have hi' : digTest base ch = false := by simpa using hi
       rw [digitsLoop_stop _ _ _ _ _ _ hi', digitsLoop_stop _ _ _ _ _ _ hi']
-      exact ⟨Sim.sync _ _ _ _ he, rfl⟩
+      exact ⟨Sim.sync _ _ _ _ h0 he, rfl⟩
   | cons x xs ih =>
-    intro ch p1 p2 ds inv he
+    intro ch p1 p2 ds inv h0 he
     by_cases hi : digTest base ch = true
     · obtain ⟨q1, h1, e1⟩ := next_cons_eq x xs p1
       obtain ⟨q2, h2, e2⟩ := next_cons_eq x (xs ++ d :: S) p2
       rw [List.cons_append, digitsLoop_step _ _ _ _ _ _ _ hi, digitsLoop_step _ _ _ _ _ _ _ hi, h1, h2]
-      exact ih _ _ _ _ _ (by rw [e1, e2, he])
+      exact ih _ _ _ _ _ (Int.natCast_nonneg _) (by rw [e1, e2, he])
     · have hi' : digTest base ch = false := by simpa using hi
       rw [digitsLoop_stop _ _ _ _ _ _ hi', digitsLoop_stop _ _ _ _ _ _ hi']
-      exact ⟨Sim.sync _ _ _ _ he, rfl⟩
+      exact ⟨Sim.sync _ _ _ _ h0 he, rfl⟩
 
 theorem digitsLoop_sim {d : Rune} (hd : IsDelim d) (S : List Rune) (base : Nat) (s1 s2 : St)
     (ds : Nat) (inv : Int) (h : Sim d S s1 s2) :
     Sim d S (digitsLoop base s1.2.1 s1.1 s1.2.2 ds inv).1 (digitsLoop base s2.2.1 s2.1 s2.2.2 ds inv).1 ∧
     (digitsLoop base s1.2.1 s1.1 s1.2.2 ds inv).2 = (digitsLoop base s2.2.1 s2.1 s2.2.2 ds inv).2 := by
   cases h with
-  | sync ch r p1 p2 he => exact digitsLoop_sync hd S base r ch p1 p2 ds inv he
+  | sync ch r p1 p2 h0 he => exact digitsLoop_sync hd S base r ch p1 p2 ds inv h0 he
   | done p1 p2 he =>
     simp only []
     rw [digitsLoop_stop _ _ _ _ _ _ (eof_not_dig base), digitsLoop_stop _ _ _ _ _ _ (delim_not_dig hd base)]
